@@ -443,6 +443,34 @@ func runC06(line string, kind, target string, msize uint32, dotu bool, seed int6
 				cnt := []uint32{small - 23, small, 300, 1000, 4096, msize - 24}[r.Intn(6)]
 				stream = append(stream, rawFrame(g.Tread, uint16(40+k), cat(le32(uint32(r.Intn(2))), le64(0), le32(cnt)))...)
 			}
+		} else if r.Intn(6) == 0 {
+			// tags reused while their requests are outstanding, and Tflushes aimed at them: requests that wait
+			// behind an older one under their tag are cancelled before they start — after enough answered reads
+			// (or stats, attaches) that the recycled reply buffers last carried that kind of reply
+			vs := h.validSession()
+			for _, f := range vs[:4] { // version, attach, walk to the directory, open it
+				stream = append(stream, f...)
+			}
+			mkreq := func(tag uint16) []byte {
+				switch r.Intn(3) {
+				case 0:
+					return rawFrame(g.Tread, tag, cat(le32(1), le64(0), le32(10)))
+				case 1:
+					return rawFrame(g.Tstat, tag, le32(0))
+				default:
+					return rawFrame(g.Tattach, tag, cat(le32(uint32(20+r.Intn(4))), le32(g.NOFID), lstr("u"), lstr("")))
+				}
+			}
+			for k := 0; k < 4+r.Intn(6); k++ {
+				stream = append(stream, mkreq(uint16(40+k))...)
+			}
+			for round := 0; round < 2+r.Intn(4); round++ {
+				tag := uint16(70 + round)
+				for k := 0; k < 2+r.Intn(3); k++ {
+					stream = append(stream, mkreq(tag)...)
+				}
+				stream = append(stream, rawFrame(g.Tflush, uint16(90+round), le16(tag))...)
+			}
 		} else if r.Intn(5) > 0 {
 			vs := h.validSession()
 			stream = append(stream, vs[0]...)
